@@ -179,7 +179,7 @@ def render(cell):
 
 
 def n_cases(tier):
-    return 3000 if tier == "quick" else 24000
+    return 3000 if tier == "quick" else 12000
 
 
 def gen_case(seed, i, tier="quick"):
@@ -506,7 +506,7 @@ def gen_case_b(seed, i, tier):
         j = rng.randrange(D)
         fs = [j, j + rng.randrange(1, 5)]
     mode = "inline" if outer else rng.choice(("call", "inline"))
-    nbig = 200 if tier == "quick" else rng.choice((200, 1000, 10000))
+    nbig = 200 if tier == "quick" else rng.choice((200, 1000, 5000))
     cell = {"stratum": "B", "mode": mode, "nbig": nbig}
     return {"property": PROPERTY, "seed": seed, "index": i, "cell": cell, "prog": prog, "faults": fs,
             "world": {"tick": 1e-5, "epoch": 1000.0}, "M": None, "T_work": None, "src": render_b(prog, mode)}
